@@ -38,6 +38,9 @@ pub enum Act {
     AppClose { code: u64, reason_hex: String },
     /// wait until the endpoint under test has produced its session (or failed), bounded
     WaitSession,
+    /// record, for every stream the raw peer is still sending on, whether the endpoint has
+    /// sent STOP_SENDING (and with which code)
+    CollectStops,
 }
 
 #[derive(Serialize, Deserialize, Clone, Debug)]
@@ -103,6 +106,8 @@ pub struct Obs {
     pub sut_closed: Option<ConnectionError>,
     pub raw_session_id: Option<u64>,
     pub sut_can_open_uni_after: Option<bool>,
+    /// calls issued after everything else: (call, None = still pending after 5 s | Some(error or "ok"))
+    pub later: Vec<(String, Option<Result<String, ConnectionError>>)>,
 }
 
 struct Slot {
@@ -334,6 +339,15 @@ pub fn run_script(script: &Script, trace: bool, prefix: &str) -> (Exec, Option<O
                         app.conn.close(wtransport::VarInt::try_from_u64(*code).unwrap(), &unhex(reason_hex));
                     }
                 }
+                Act::CollectStops => {
+                    for sl in slots.values_mut() {
+                        if let Some(s) = sl.send.as_mut() {
+                            if let Ok(Ok(Some(code))) = tokio::time::timeout(Duration::from_millis(1), s.stopped()).await {
+                                sl.obs.lock().unwrap().stopped = Some(code.into_inner());
+                            }
+                        }
+                    }
+                }
                 Act::WaitSession => {
                     let st = sut_state.clone();
                     let rc2 = raw_conn.clone();
@@ -349,8 +363,10 @@ pub fn run_script(script: &Script, trace: bool, prefix: &str) -> (Exec, Option<O
         // STOP_SENDING on our sending halves (non-blocking check)
         for sl in slots.values_mut() {
             if let Some(s) = sl.send.as_mut() {
-                if let Ok(Ok(Some(code))) = tokio::time::timeout(Duration::from_millis(1), s.stopped()).await {
-                    sl.obs.lock().unwrap().stopped = Some(code.into_inner());
+                if sl.obs.lock().unwrap().stopped.is_none() {
+                    if let Ok(Ok(Some(code))) = tokio::time::timeout(Duration::from_millis(1), s.stopped()).await {
+                        sl.obs.lock().unwrap().stopped = Some(code.into_inner());
+                    }
                 }
             }
         }
@@ -361,6 +377,7 @@ pub fn run_script(script: &Script, trace: bool, prefix: &str) -> (Exec, Option<O
         let sut = sut_state.lock().unwrap().clone();
         let mut sut_closed = None;
         let mut can_open = None;
+        let mut later = Vec::new();
         let app_taken = app_slot.lock().unwrap().take();
         let app_log = match app_taken {
             Some(app) => {
@@ -378,6 +395,16 @@ pub fn run_script(script: &Script, trace: bool, prefix: &str) -> (Exec, Option<O
                 if let Ok(e) = tokio::time::timeout(Duration::from_millis(1), conn.closed()).await {
                     sut_closed = Some(e);
                 }
+                // "every subsequent operation that waits on the peer": issue each call once more
+                let ended_now = app.log.lock().unwrap().ended.len();
+                if ended_now > 0 {
+                    let r = tokio::time::timeout(Duration::from_secs(5), conn.accept_uni()).await;
+                    later.push(("accept_uni".to_string(), r.ok().map(|x| x.map(|_| "ok".to_string()))));
+                    let r = tokio::time::timeout(Duration::from_secs(5), conn.accept_bi()).await;
+                    later.push(("accept_bi".to_string(), r.ok().map(|x| x.map(|_| "ok".to_string()))));
+                    let r = tokio::time::timeout(Duration::from_secs(5), conn.receive_datagram()).await;
+                    later.push(("receive_datagram".to_string(), r.ok().map(|x| x.map(|_| "ok".to_string()))));
+                }
                 let log = std::mem::take(&mut *app.log.lock().unwrap());
                 Some(log)
             }
@@ -386,7 +413,7 @@ pub fn run_script(script: &Script, trace: bool, prefix: &str) -> (Exec, Option<O
         let slot_obs: BTreeMap<usize, SlotObs> = slots.iter().map(|(k, v)| (*k, v.obs.lock().unwrap().clone())).collect();
         let rec_state = std::mem::take(&mut *rec.0.lock().unwrap());
         drop(keep);
-        Ok(Obs { sut, raw_close, slots: slot_obs, app: app_log, rec: rec_state, setup_error: None, sut_closed, raw_session_id, sut_can_open_uni_after: can_open })
+        Ok(Obs { sut, raw_close, slots: slot_obs, app: app_log, rec: rec_state, setup_error: None, sut_closed, raw_session_id, sut_can_open_uni_after: can_open, later })
     });
     sut::finish_exec(&mut ex, &netslot, trace);
     ex.probe("loop_iters", out.loop_iters);
